@@ -1,7 +1,7 @@
 use serde_json::Value;
 
 use crate::ConvertResult;
-use crate::lua_emitter::EmmyLuaEmitter;
+use crate::lua_emitter::{EmmyLuaEmitter, lua_string_literal};
 use crate::markdown_doc::sanitize_description;
 use crate::schema_walker::SchemaWalker;
 
@@ -344,7 +344,7 @@ impl SchemaConverter {
                 .filter(|item| item.get("type").and_then(|v| v.as_str()) != Some("null"))
                 .map(|item| {
                     if let Some(const_val) = item.get("const").and_then(|v| v.as_str()) {
-                        format!("\"{}\"", const_val)
+                        lua_string_literal(const_val)
                     } else {
                         self.resolve_type(walker, item)
                     }
@@ -405,14 +405,14 @@ impl SchemaConverter {
             let variants: Vec<String> = enum_values
                 .iter()
                 .filter_map(|v| v.as_str())
-                .map(|s| format!("\"{}\"", s))
+                .map(lua_string_literal)
                 .collect();
             return variants.join(" | ");
         }
 
         // const
         if let Some(const_val) = schema.get("const").and_then(|v| v.as_str()) {
-            return format!("\"{}\"", const_val);
+            return lua_string_literal(const_val);
         }
 
         "any".to_string()
